@@ -133,3 +133,43 @@ func verifH_C05_separate_state() {
 	_ = eioparser.PacketTypeMessage
 	verifReach("end")
 }
+
+// C05_attach_after_accept: a connection attached to "/" asks for "/admin", whose middleware takes its time: while it runs
+// (it even joins a room) broadcasts are made in "/admin" - to the namespace and to that room. The connection gets nothing
+// for "/admin" until the CONNECT has been accepted (and nothing at all if it is refused); traffic of "/" goes on.
+//
+//verif:unwind 12
+//verif:rand concrete
+func verifH_C05_attach_after_accept() {
+	w := verifServerWorld("/", "/admin")
+	socks := w.verifConnected("/")
+	admin := w.nsp("/admin")
+	w.conn.eioPacketQueue.get()
+	accept := verifAnyBool()
+	during := -1
+	admin.Use(func(socket ServerSocket, handshake *Handshake) any {
+		verifAssert(len(admin.Sockets()) == 0, "a socket is attached to a namespace only once its CONNECT was accepted")
+		socket.Join("ops")
+		admin.Emit("secret")
+		admin.To("ops").Emit("secret")
+		socks["/"].Emit("plain")
+		during = len(w.conn.eioPacketQueue.get())
+		if accept {
+			return nil
+		}
+		return "no"
+	})
+	w.conn.connect(&parser.PacketHeader{Type: parser.PacketTypeConnect, Namespace: "/admin"}, verifNoDecode)
+	verifWaitQuiescent()
+	verifAssert(during == 1, "while the CONNECT is being decided the connection receives the traffic of its attached namespace and nothing of the requested one")
+	after := w.conn.eioPacketQueue.get()
+	verifAssert(len(after) == 1, "the decision is answered with exactly one packet")
+	if accept {
+		verifAssert(w.countEncoded(parser.PacketTypeConnect, "/admin") == 1 && len(admin.Sockets()) == 1, "an accepted CONNECT attaches the namespace")
+	} else {
+		verifAssert(w.countEncoded(parser.PacketTypeConnectError, "/admin") == 1 && len(admin.Sockets()) == 0, "a refused CONNECT attaches nothing")
+		admin.Emit("secret")
+		verifAssert(len(w.conn.eioPacketQueue.get()) == 0, "a refused namespace never sends anything on the connection")
+	}
+	verifReach("end")
+}
